@@ -17,7 +17,7 @@ from sim import outcome, rng, seams, shrink, workload
 
 ID = "C13"
 MODULE = "checks.c13_factories"
-SIG_CLASSES = ["plain", "name", "kwonly", "varkw", "object", "partial", "builtin", "nddefault"]
+SIG_CLASSES = ["plain", "name", "kwonly", "varkw", "object", "partial", "builtin", "nddefault", "posonly-name", "varpos-signature"]
 FAULTS = ["raise", "type-list", "type-none", "type-scalar", "type-duck", "type-memoryview", "type-npscalar", "shape-extra", "shape-transposed", "shape-broadcast"]
 
 
@@ -165,6 +165,16 @@ def make_factory(sigclass, arr, pos, log, fault=None):
             record((shape,), {"name": name, "extra": extra})
             return produce(shape)
         return functools.partial(g, extra=7), {"name"}
+    if sigclass == "posonly-name":
+        def f(shape, name=None, /):  # merely *named* like an optional keyword: cannot be passed by keyword, so nothing is declared
+            record((shape,), {} if name is None else {"name": name})
+            return produce(shape)
+        return f, set()
+    if sigclass == "varpos-signature":
+        def f(shape, *signature):
+            record((shape,), {} if not signature else {"signature": signature})
+            return produce(shape)
+        return f, set()
     if sigclass == "nddefault":
         def f(shape, init=np.zeros(3)):  # an array-valued default: part of the signature that keys the cache
             record((shape,), {})
